@@ -32,6 +32,9 @@ def shards(tier, seed):
                 if kind.startswith("identity") and Dx != Dy:
                     continue
                 out.append(dict(id="C10/%s/Dx%d.Dy%d" % (kind, Dx, Dy), kind=kind, Dx=Dx, Dy=Dy, cost=Dx + Dy, facts=dict(kind=kind, Dx=Dx, Dy=Dy)))
+    if tier == "quick":
+        for kind in ("full", "diag", "identity", "identity_diag"):
+            out.append(dict(id="C10/%s/Dx4.Dy4.big" % kind, kind=kind, Dx=4, Dy=4, big=True, cost=10, facts=dict(kind=kind, Dx=4, Dy=4)))
     return out
 
 
@@ -39,7 +42,7 @@ def run_shard(shard, ctx):
     tier, seed = shard["tier"], shard["seed"]
     kind, Dx, Dy = shard["kind"], shard["Dx"], shard["Dy"]
     vis = [0, 1, 100] if tier == "quick" else [0, 1, 2, 3, 100, 101, 102]
-    Ns = BOUNDS[tier]["N"]
+    Ns = BOUNDS[tier]["N"] if not shard.get("big") else [4]
     convs = [("R1", N) for N in Ns] + [("RN", N) for N in Ns if N >= 2]
     for conv, N in convs:
         if kind == "nncontrol" and conv == "RN" and N > 3:
